@@ -147,7 +147,8 @@ where
             table_r: other.table,
             nodes: extend_lpm(
                 other.table,
-                other.table[other.loc.idx()].prefix_value(),
+                // the longest prefix match is established while traversing (in `extend_lpm`).
+                None,
                 next_indices(
                     self.table,
                     other.table,
@@ -257,7 +258,8 @@ where
         let other = other.view();
         let nodes = extend_lpm(
             other.table,
-            other.table[other.loc.idx()].prefix_value(),
+            // the longest prefix match is established while traversing (in `extend_lpm`).
+            None,
             next_indices(
                 self.table,
                 other.table,
